@@ -11,5 +11,6 @@ int main(int argc, char **argv) {
     RUN("shared_future_string_values", 1, true, scn::shared_future_string_values(o, R, o.cases));
     RUN("shared_future_reference_source", 1, true, scn::shared_future_reference_source(o, R, o.cases));
     RUN("shared_future_many_awaiters", 1, true, scn::shared_future_many_awaiters(o, R, o.cases));
+    RUN("shared_future_throwing_copy", 1, true, scn::shared_future_throwing_copy(o, R, o.cases));
     return 0;
 }
